@@ -1,6 +1,7 @@
 package c10
 
 import (
+	"encoding/json"
 	"fmt"
 	"net"
 	"sort"
@@ -24,6 +25,7 @@ type scen struct {
 func scenarios(thorough bool) []scen {
 	one := cfg{"singleblock-2ip", 1024, 1031, 4, 2, 4, true} // 2 blocks per IP, 2 IPs
 	tiny := cfg{"nondividing-1ip", 1000, 1009, 3, 1, 4, false}
+	tinyBulk := cfg{"nondividing-1ip-bulk", 1000, 1009, 3, 1, 4, true}
 	s := []scen{
 		{"A0|A0", one, nil, [][]string{{"A0"}, {"A0"}}},
 		{"A0|A1", one, nil, [][]string{{"A0"}, {"A1"}}},
@@ -33,6 +35,10 @@ func scenarios(thorough bool) []scen {
 		{"A0|D0", one, []string{"A0"}, [][]string{{"A0"}, {"D0"}}},
 		{"D0,A0|A2", tiny, []string{"A0", "A1"}, [][]string{{"D0", "A0"}, {"A2"}}},
 		{"A2|D0|A3", tiny, []string{"A0", "A1"}, [][]string{{"A2"}, {"D0"}, {"A3"}}},
+		// the logger's background flusher (Flush / FlushPortBlocks) racing with callers that log
+		{"F|A2,A3", one, []string{"A0", "A1"}, [][]string{{"F"}, {"A2", "A3"}}},
+		{"F|D0,A2", tinyBulk, []string{"A0", "A1"}, [][]string{{"F"}, {"D0", "A2"}}},
+		{"F|A2|D1", tiny, []string{"A0", "A1"}, [][]string{{"F"}, {"A2"}, {"D1"}}},
 	}
 	if thorough {
 		s = append(s,
@@ -52,11 +58,17 @@ type call struct {
 }
 
 type schedState struct {
-	s     *sys
-	calls []*call
+	s      *sys
+	calls  []*call
+	preRes []string
 }
 
 func doOp(s *sys, op string) string {
+	if op == "F" {
+		s.lg.Flush()
+		s.lg.FlushPortBlocks()
+		return "flushed"
+	}
 	var i int
 	fmt.Sscanf(op[1:], "%d", &i)
 	if op[0] == 'A' {
@@ -79,7 +91,7 @@ func (sc scen) scenario() *sched.Scenario {
 			st := &schedState{s: newSys(sc.c)}
 			x.Data = st
 			for _, op := range sc.pre {
-				doOp(st.s, op)
+				st.preRes = append(st.preRes, doOp(st.s, op))
 			}
 			for ti, ops := range sc.threads {
 				ti, ops := ti, ops
@@ -109,6 +121,9 @@ func checkSched(sc scen, st *schedState) []sched.Viol {
 	dealloc := map[int]bool{}
 	allocRes := map[int][]string{}
 	for _, c := range st.calls {
+		if c.op == "F" {
+			continue
+		}
 		var i int
 		fmt.Sscanf(c.op[1:], "%d", &i)
 		if c.op[0] == 'D' {
@@ -165,6 +180,7 @@ func checkSched(sc scen, st *schedState) []sched.Viol {
 			add("count", "GetPoolStats", "public %s counts %d subscribers, %d blocks are live", pe.PublicIP, pe.Subscribers, perPool[pe.PublicIP.String()])
 		}
 	}
+	vs = append(vs, checkLog(sc, st, live)...)
 	if len(vs) > 0 {
 		return vs
 	}
@@ -192,6 +208,129 @@ func checkSched(sc scen, st *schedState) []sched.Viol {
 	}
 	if len(all) != capacity {
 		add("count", "AllocateNAT", "after the concurrent phase %d blocks could be held in total, capacity is %d", len(all), capacity)
+	}
+	return vs
+}
+
+// checkLog: N4 under concurrency. From the log ALONE (records in write order): every block assignment and release
+// that happened is recorded exactly once, no record assigns a block while the log still shows it held by another
+// subscriber, and the holders the log ends with are exactly the live allocations.
+func checkLog(sc scen, st *schedState, live map[int]block) []sched.Viol {
+	var vs []sched.Viol
+	add := func(kind, f string, a ...any) {
+		vs = append(vs, sched.Viol{Kind: kind, Site: "Logger", Detail: fmt.Sprintf(f, a...)})
+	}
+	st.s.lg.Flush()
+	st.s.lg.FlushPortBlocks()
+	type rec struct {
+		EventType  string `json:"event_type"`
+		PrivateIP  string `json:"private_ip"`
+		PublicIP   string `json:"public_ip"`
+		PortStart  int    `json:"port_start"`
+		PortEnd    int    `json:"port_end"`
+		PublicPort int    `json:"public_port"`
+	}
+	held := map[string]block{}
+	assigns, releases := map[string]int{}, map[string]int{}
+	for _, line := range strings.Split(strings.TrimSpace(st.s.buf.String()), "\n") {
+		if line == "" {
+			continue
+		}
+		var r rec
+		if err := json.Unmarshal([]byte(line), &r); err != nil {
+			add("log", "unparsable log line %q", line)
+			continue
+		}
+		switch r.EventType {
+		case "port_block_assign", "allocate":
+			stt := r.PortStart
+			if r.EventType == "allocate" {
+				stt = r.PublicPort
+			}
+			nb := block{r.PublicIP, stt, stt + sc.c.per - 1}
+			for p, o := range held {
+				if p != r.PrivateIP && o.pub == nb.pub && o.start <= nb.end && nb.start <= o.end {
+					add("log-ambiguous", "log assigns %v to %s while the log still shows %s holding %v", nb, r.PrivateIP, p, o)
+				}
+			}
+			held[r.PrivateIP] = nb
+			assigns[r.PrivateIP]++
+		case "port_block_release", "deallocate":
+			delete(held, r.PrivateIP)
+			releases[r.PrivateIP]++
+		}
+	}
+	// expected record counts from the calls that succeeded (pre + threads)
+	wantA, wantD := map[string]int{}, map[string]int{}
+	seenA := map[int]string{}
+	note := func(op, res string) {
+		if op == "F" {
+			return
+		}
+		var i int
+		fmt.Sscanf(op[1:], "%d", &i)
+		ip := subIP(i).String()
+		if op[0] == 'A' && res != "err" {
+			if seenA[i] != res { // a re-allocate that returns the block already held logs nothing
+				wantA[ip]++
+				seenA[i] = res
+			}
+		}
+		if op[0] == 'D' && res == "ok" && seenA[i] != "" {
+			wantD[ip]++
+			seenA[i] = ""
+		}
+	}
+	for i, op := range sc.pre {
+		note(op, st.preRes[i])
+	}
+	// thread calls: order between threads is unknown, so only per-subscriber totals are compared when each
+	// subscriber is touched by a single thread (true for the logger scenarios)
+	perSub := map[int]map[int]bool{}
+	for _, c := range st.calls {
+		if c.op == "F" {
+			continue
+		}
+		var i int
+		fmt.Sscanf(c.op[1:], "%d", &i)
+		if perSub[i] == nil {
+			perSub[i] = map[int]bool{}
+		}
+		perSub[i][c.th] = true
+	}
+	single := true
+	for _, ths := range perSub {
+		if len(ths) > 1 {
+			single = false
+		}
+	}
+	if single {
+		for _, c := range st.calls {
+			note(c.op, c.res)
+		}
+		for ip, n := range wantA {
+			if assigns[ip] != n {
+				add("log-missing", "%d block assignments happened for %s, the log has %d assign records", n, ip, assigns[ip])
+			}
+		}
+		for ip, n := range assigns {
+			if wantA[ip] == 0 && n > 0 {
+				add("log-missing", "the log has %d assign records for %s, no assignment happened", n, ip)
+			}
+		}
+		for ip, n := range wantD {
+			if releases[ip] != n {
+				add("log-missing", "%d releases happened for %s, the log has %d release records", n, ip, releases[ip])
+			}
+		}
+		for i, b := range live {
+			if hb, ok := held[subIP(i).String()]; !ok || hb != b {
+				add("log", "subscriber %d holds %v, the log ends with %v", i, b, hb)
+			}
+		}
+		if len(held) != len(live) {
+			add("log", "log ends with %d held blocks, %d are live", len(held), len(live))
+		}
 	}
 	return vs
 }
